@@ -202,12 +202,34 @@ def run_scenario(case, *, recover_bound, mirror_wait=0.0, detect_bound=None, on_
             sc.apply("healthy")
             t_h = W.clock.t
             rec["t_h"] = t_h
-            while W.clock.t - t_h < recover_bound + (actions[-1][0] if actions else 0):
-                await W.sleep(0.25)
+            # From here on the network is healthy.  Faults that happened before may still surface for a while (a request started in
+            # the outage exhausts its retries, the ping loop notices the gap): the manager may therefore leave CONNECTED again, but
+            # within the bound it must be CONNECTED *and stay so* for `stable` virtual seconds, with a facade that mirrors the spa.
+            stable = 130.0 if mirror_wait > 0 else 0.0
+            deadline = t_h + recover_bound + (actions[-1][0] if actions else 0)
+            good_since = None
+            probs = None
+            while True:
+                await W.sleep(0.25 if good_since is None or stable == 0 else 1.0)
                 await tick()
-                if not actions and man.spa_state == GeckoSpaState.CONNECTED and man.facade is not None:
-                    rec["ok_at"] = W.clock.t
+                now = W.clock.t
+                good = not actions and man.spa_state == GeckoSpaState.CONNECTED and man.facade is not None
+                if good:
+                    if good_since is None:
+                        good_since = now
+                    if now - good_since >= stable:
+                        probs = rec["mirror_fn"](man, sim) if ("mirror_fn" in rec and stable > 0) else []
+                        if not probs:
+                            rec["ok_at"] = good_since
+                            break
+                else:
+                    good_since = None
+                    probs = None
+                if (good_since is None and now > deadline) or now > deadline + stable + 60.0:
                     break
+            rec["mirror"] = probs if rec["ok_at"] is None and good_since is not None else None
+            if rec["ok_at"] is None and good_since is not None and probs:
+                rec["ok_at"] = good_since      # connected in time, but the facade does not mirror the spa (reported separately)
             rec["t_end"] = W.clock.t
             rec["final_state"] = man.spa_state
             rec["final_spa"] = man._spa is not None
@@ -215,18 +237,6 @@ def run_scenario(case, *, recover_bound, mirror_wait=0.0, detect_bound=None, on_
             pump = sc.pump_task()
             rec["pump_alive"] = pump is not None and not pump.done()
             rec["pump_exc"] = pump.exception() if pump is not None and pump.done() and not pump.cancelled() else None
-            if rec["ok_at"] is not None and mirror_wait > 0:
-                rec["inside"] = True
-                if "mirror_fn" in rec:
-                    probs = ["?"]
-                    t_m = W.clock.t
-                    while probs and W.clock.t - t_m < mirror_wait:
-                        await W.sleep(5.0)
-                        if man.spa_state != GeckoSpaState.CONNECTED or man.facade is None:
-                            probs = [f"left CONNECTED again on a healthy network: {man.spa_state.name}"]
-                            break
-                        probs = rec["mirror_fn"](man, sim)
-                    rec["mirror"] = probs
         rec["exited_at"] = W.clock.t
 
     rec["main"] = main
